@@ -21,7 +21,7 @@ def record_run(text_codes, na, twopl, pc=False, stab=False, bf=False, crits=(), 
     t = {'text': list(text_codes), 'na': na, 'twopl': twopl, 'pc': pc, 'stab': stab, 'bf': bf,
          'crits': [{'c': c['c'], 'x': list(c['x'])} for c in crits],
          'construct': 'ok', 'exception': '', 'loaded': {}, 'status': '', 'matching': [], 'objvals': [], 'stabline': '',
-         'stats': {}, 'bfres': {'feasible': False}, 'agree': []}
+         'stats': {}, 'bfres': {'feasible': False}, 'agree': [], 'archive': False}
     try:
         r = solverplay.run_once(solverplay.argv_of(o, path), mode='cbc', getters=('results',) if bf else ('short',),
                                 enumerate_cbc=enumerate_cbc, keep_sets=False)
@@ -92,7 +92,15 @@ def validate(traces, pid, label='Trace_Pipe', chunks=4, workers=4):
     if not traces:
         return [], None
     import concurrent.futures as cf
-    slim = [{k: v for k, v in t.items() if k not in ('agree', 'meta')} for t in traces]
+    def nn(x):      # TLC's Json module has no null
+        if x is None:
+            return -1
+        if isinstance(x, dict):
+            return {k: nn(v) for k, v in x.items()}
+        if isinstance(x, (list, tuple)):
+            return [nn(v) for v in x]
+        return x
+    slim = [nn({k: v for k, v in t.items() if k not in ('agree', 'meta')}) for t in traces]
     nchunks = max(1, min(chunks, len(slim) // 20 + 1))
     size = -(-len(slim) // nchunks)
     jobs = [(pid, label, i, slim[i:i + size], workers) for i in range(0, len(slim), size)]
